@@ -18,6 +18,11 @@ CLAIMED = {
             "Bounds: texts of <= 3 (quick) / <= 4 (thorough) characters; representatives U+00E9, U+20AC, U+1F600; UTF-16 is the oracle because the server "
             "advertises no positionEncoding (checked syntactically on every run).",
             "DESIGN.md §2 C23"),
+    "C20": ("MIR-to-SMT symbolic execution (z3, cvc5 cross-check) of the enable/disable precedence chain, add_diagnostic gating and diagnose_file; native replay through VirtualWorkspace",
+            "All paths of the real functions' MIR are executed symbolically with every callee observation free, and the property's clauses are discharged by z3 "
+            "(re-decided by cvc5) over all valuations; counterexamples become concrete workspaces replayed against the real analyzer.",
+            "Callee contracts (index lookups, set membership are deterministic observers), rustc's MIR, no unwinding edges. globals/globalsRegex and per-checker routing are outside.",
+            "DESIGN.md §2 C20"),
 }
 
 NA = {}
@@ -66,7 +71,7 @@ def main():
         "engines": [
             {"name": "K", "path": "/verif/lib/kanirun.py", "serves_properties": sorted(CLAIMED),
              "kind_free_text": "Kani 0.68 proof harnesses (/verif/kani/*) over the real crates, CBMC 6.11 + cadical, unwinding assertions on, native replay"},
-            {"name": "M", "path": "/verif/mirsmt", "serves_properties": [],
+            {"name": "M", "path": "/verif/mirsmt", "serves_properties": ["C20"],
              "kind_free_text": "symbolic execution of rustc's MIR of the real functions into SMT (z3, cross-checked with cvc5)"},
         ],
         "checks": checks,
